@@ -443,16 +443,16 @@ func c6FrontEnds(c *Ctx, lv map[string]int64) {
 			if !c.Anchor("R6.2", "zap.SugaredLogger."+n+suf, fn != nil) {
 				continue
 			}
-			helper := "(*go.uber.org/zap.SugaredLogger).log"
-			if suf == "ln" {
-				helper += "ln"
-			}
-			c6Route(c, "R6.2", fn, []string{helper}, lv[n], n == "Log", 1)
+			// (either of the two shared helpers: the …ln family may go through log with a message function of its own)
+			c6Route(c, "R6.2", fn, []string{"(*go.uber.org/zap.SugaredLogger).log", "(*go.uber.org/zap.SugaredLogger).logln"}, lv[n], n == "Log", 1)
 		}
 	}
 	lim := itoa(int(lv["DPanic"]))
 	for _, h := range []string{"log", "logln"} {
 		fn := c.Method(zp, "SugaredLogger", h)
+		if fn == nil && h == "logln" {
+			continue // one helper serves both families
+		}
 		if !c.Anchor("R6.2", "zap.SugaredLogger."+h, fn != nil) {
 			continue
 		}
